@@ -5,7 +5,6 @@ import (
 	"database/sql"
 	"database/sql/driver"
 	"errors"
-	"reflect"
 	"sync"
 
 	"gorm.io/gorm/utils/simhook"
@@ -256,14 +255,14 @@ func (db *PreparedStmtTX) GetDBConn() (*sql.DB, error) {
 }
 
 func (tx *PreparedStmtTX) Commit() error {
-	if tx.Tx != nil && !reflect.ValueOf(tx.Tx).IsNil() {
+	if tx.Tx != nil && !isNilValue(tx.Tx) {
 		return tx.Tx.Commit()
 	}
 	return ErrInvalidTransaction
 }
 
 func (tx *PreparedStmtTX) Rollback() error {
-	if tx.Tx != nil && !reflect.ValueOf(tx.Tx).IsNil() {
+	if tx.Tx != nil && !isNilValue(tx.Tx) {
 		return tx.Tx.Rollback()
 	}
 	return ErrInvalidTransaction
